@@ -25,7 +25,8 @@ except Exception as _ex:
     IO_TABLES3_STATUS = "unparsed generator-failed: %s" % str(_ex)[:200]
 # round 4: coq/gen/IoDispatch4.v (the dispatch functions of parse/*.rs and fmt/*.rs: which converter for which radix, which path
 # for which length / representation, loop conditions and split points of the divide-and-conquer parser, the length shortcut of
-# the printer's squaring loop, the width formula of the power-of-two printer) as generated Gallina functions
+# the printer's squaring loop, the width formula of the power-of-two printer) and InRadixWriter::format_prepared (symbolic run of its
+# output statements) as generated Gallina functions
 try:
     import translate_c07_r4
     IO_DISPATCH4_STATUS = translate_c07_r4.generate(core.REPO, os.path.join(core.COQ, "gen"))
@@ -46,7 +47,7 @@ def extra_phase(tier, seed, exes, oracle):
                                  "parse/non_power_two.rs, fmt/mod.rs, fmt/power_two.rs, fmt/non_power_two.rs, math.rs)",
                      "status": IO_DISPATCH4_STATUS,
                      "tied_by": "C07_dispatch_print_eq, C07_dispatch_parse_eq, C07_dispatch_parse_dc, C07_dispatch_parse_powers, C07_dispatch_fmt_powers, "
-                                "C07_dispatch_p2_width, C07_dispatch_print, C07_dispatch_parse" if word4 == "ok"
+                                "C07_dispatch_p2_width, C07_dispatch_print, C07_dispatch_parse, C07_layout_gen_eq, C07_layout_gen" if word4 == "ok"
                                 else "correspondence run only (source not parsed; previous copy marked STALE)"},
                     {"fragment": "coq/gen/IoTables3.v (tools/translate_c07_r3.py from integer/src/fmt/mod.rs, fmt/non_power_two.rs, "
                                  "fmt/digit_writer.rs, parse/*.rs, third_party/num_traits.rs, third_party/serde.rs)",
@@ -107,8 +108,9 @@ LEVEL_TEXT = ("Machine-checked Coq theorems for all inputs (no size bound; every
               "model of log_word_base (proved total within bit length + 1 rounds and exact for EVERY estimate passing the code's "
               "assertion) instead of a hypothesis on the logarithm; the DISPATCH of parse/*.rs and fmt/*.rs (converter per radix, "
               "path per length / representation, chunk_bytes, loop and split conditions of the divide-and-conquer parser, the length "
-              "shortcut of the printer's squaring loop, the power-of-two width formula) is REGENERATED as Gallina functions and the "
-              "converters read through them are proved equal to the transcription and to the specification.")
+              "shortcut of the printer's squaring loop, the power-of-two width formula) and the whole sign / prefix / padding layout of "
+              "format_prepared (a symbolic run of its write_str / write_char-loop / write_digits statements) are REGENERATED as Gallina "
+              "functions; the converters and the layout read through them are proved equal to the transcription and to the specification.")
 LEVEL_NOTE = ("Trusted: Coq kernel, extraction incl. FastZ.v directives, zarith, the Rust harness (it also lays the same digits out "
               "with the real Formatter::pad_integral and with u128/i128 formatting). Still by contract / meaning: num-modular's "
               "PreMulInv1by1 and Normalized2by1Divisor primitives inside the C07 word loops (exact division; C02 proves the "
